@@ -182,6 +182,12 @@ theorem wrapper_seq_params (n : ℕ) (x : K) :
     functions); together with `seq_rows_hold_floats` this is the static side of "the answer does not depend on earlier calls" -/
 theorem seq_no_dtype_blind_cache : Generated.C08.seqRoutinesHaveNoDtypeBlindCache = true := by decide
 
+/-- **arguments are inputs**: no function of `prysm/polynomials/*.py` applies an in-place operation (augmented assignment, item / slice
+    store, mutating method, ufunc `out=`) to one of its parameters or to a possible alias of one (`np.asarray(p)`, a view, `p.T`, …),
+    the documented output buffers `alphas` / `out` excepted (read off the source) — so the caller's container of orders and the
+    coordinate arrays hold the same values after a `*_seq` call as before, and a second call with the same objects sees the same input -/
+theorem routines_leave_arguments_untouched : Generated.C08.polynomialRoutinesLeaveArgumentsUntouched = true := by decide
+
 /-- **rows are never truncated**: whatever the kind of the coordinate dtype (bool, int, float, complex), the `out` array of every
     value `*_seq` can hold floating-point values (read from the `dtype=` of each allocation in the source) -/
 theorem seq_rows_hold_floats (k : DKind) :
